@@ -95,12 +95,18 @@ def jobs_c03(tier, seed):
     jobs = []
     ns = [2, 3] if tier == "quick" else [2, 3, 4, 5]
     for n in ns:
-        to = {2: 600, 3: 1200, 4: 3600, 5: 3 * 3600}[n]
-        mem = 12 if n < 4 else 24
-        jobs.append(J(f"c03::bytes_chunked_{n}", features=f, timeout_s=to, mem_gb=mem, optional=n >= 5, bound=f"StripBytes: every byte string of length {n} x all {2**(n-1)} chunkings vs strip_bytes"))
-        jobs.append(J(f"c03::stream_chunked_{n}", features=f, timeout_s=to, mem_gb=mem, optional=n >= 4, bound=f"StripStream::write_all per chunk: every byte string of length {n} x all chunkings"))
-        if n <= 4:
-            jobs.append(J(f"c03::str_chunked_{n}", features=f, timeout_s=to, mem_gb=mem, bound=f"StripStr: every UTF-8 string of {n} bytes x all chunkings at character boundaries vs strip_str"))
+        for mask in range(2 ** (n - 1)):
+            cuts = "".join("|" if (mask >> i) & 1 else "." for i in range(n - 1))
+            to = {2: 900, 3: 1800, 4: 3600, 5: 3 * 3600}[n]
+            mem = 12 if n < 4 else 20
+            opt = n >= 5
+            jobs.append(J(f"c03::bytes_n{n}_m{mask}", features=f, timeout_s=to, mem_gb=mem, optional=opt, all_covers=False, min_covers=1,
+                          bound=f"StripBytes: every byte string of length {n}, partition '{cuts}' ('|' = cut) vs strip_bytes"))
+            if n <= 4:
+                jobs.append(J(f"c03::stream_n{n}_m{mask}", features=f, timeout_s=to, mem_gb=mem, optional=n >= 4, all_covers=False, min_covers=1,
+                              bound=f"StripStream::write_all per chunk: every byte string of length {n}, partition '{cuts}'"))
+                jobs.append(J(f"c03::str_n{n}_m{mask}", features=f, timeout_s=to, mem_gb=mem, optional=n >= 4, all_covers=False, min_covers=1,
+                              bound=f"StripStr: every UTF-8 string of {n} bytes whose cuts '{cuts}' fall on character boundaries vs strip_str"))
     return jobs
 
 
@@ -406,9 +412,10 @@ def jobs_c12(tier, seed):
         to = {1: 600, 2: 900, 3: 1200, 4: 2400, 5: 2 * 3600, 6: 3 * 3600}[k]
         jobs.append(J(f"c12::ls_codes_{k}", features=f, stubbing=True, timeout_s=to, mem_gb=16 if k < 5 else 24, optional=k >= 6, replay="none",
                       bound=f"every list of {k} codes (256^{k} lists), every field a number"))
-    for k in ([1, 2] if tier == "quick" else [1, 2, 3]):
-        jobs.append(J(f"c12::ls_reject_{k}", features=f, stubbing=True, timeout_s=3600, mem_gb=24, optional=k >= 3, replay="none",
-                      bound=f"every list of {k} fields with any one field failing to parse -> rejected"))
+    rej = [(1, 0), (2, 0), (2, 1)] + ([(3, 0), (3, 1), (3, 2)] if tier == "thorough" else [])
+    for k, at in rej:
+        jobs.append(J(f"c12::ls_reject_{k}_at_{at}", features=f, stubbing=True, timeout_s=1200, mem_gb=16, replay="none",
+                      bound=f"every list of {k} fields in which field {at} fails to parse (any other codes) -> rejected"))
     return jobs
 
 
@@ -597,7 +604,7 @@ REGISTRY = {
             "anstyle_parse::state::state_change, utf8parse::Parser::advance",
         ],
         "bounds": {
-            "quick": "every byte string of length <=3 x every partition into consecutive chunks (one symbolic cut mask), byte adapters and strip stream; every UTF-8 string of <=3 bytes x every partition at character boundaries",
+            "quick": "every byte string of length <=3 x every partition into consecutive chunks (one query per partition: 2 + 4), byte adapters, strip stream and text adapters (cuts at character boundaries)",
             "thorough": "lengths <=5 (bytes; 5 optional) and <=4 (text, stream)",
         },
         "outside": "longer inputs; the styled-run extractor's chunking is covered under C07's run harness",
